@@ -162,14 +162,14 @@ def _through_from_string(ctx, name, bench, cons, objs, expected, line, m):
 
 def _not_a_list(ctx):
     """"every other list is rejected with a ValueError": an argument that is not a list or tuple of constraints (an empty
-    or non-empty str / bytes / range, a number, None, a dict, a set, an iterator) is refused with a ValueError; the empty
-    list and the empty tuple are accepted"""
+    or non-empty str / bytes / range, a number, None, a list holding something that is not a constraint) is refused with a
+    ValueError; the empty list and the empty tuple are accepted.  (Other collections of constraints -- a set, an iterator -- are
+    left alone: accepting them would be a feature, not a violation.)"""
     from univers.versions import SemverVersion
     c = VersionConstraint(comparator=">=", version=SemverVersion("1.0.0"))
     cases = [("''", "", "err:ValueError"), ("b''", b"", "err:ValueError"), ("range(0)", range(0), "err:ValueError"), ("'abc'", "abc", "err:ValueError"),
              ("b'ab'", b"ab", "err:ValueError"), ("range(2)", range(2), "err:ValueError"), ("5", 5, "err:ValueError"), ("None", None, "err:ValueError"),
-             ("{}", {}, "err:ValueError"), ("set()", set(), "err:ValueError"), ("iter([])", iter([]), "err:ValueError"),
-             ("{c}", {c}, "err:ValueError"), ("iter([c])", iter([c]), "err:ValueError"), ("[c, 'x']", [c, "x"], "err:ValueError"),
+             ("[c, 'x']", [c, "x"], "err:ValueError"),
              ("[None]", [None], "err:ValueError"), ("()", (), "ok:true"), ("[]", [], "ok:true"), ("(c,)", (c,), "ok:true"), ("[c]", [c], "ok:true")]
     for label, arg, want in cases:
         got = B.res_bool(lambda: VersionConstraint.validate(arg))
